@@ -61,7 +61,7 @@ func (c Config) next(i int) int {
 		if _ = c[n]; c[i+7] == 0 {
 			return n
 		}
-		for x := int(c[i+7]); x > 0 && n < len(c) && n > 0; x-- {
+		for x := int(c[i+7]); x > 0 && n+1 < len(c) && n > 0; x-- {
 			n += int(c[n]) + int(c[n+1]) + 2
 		}
 		return n
